@@ -186,6 +186,26 @@ def validConnectBase (pdu : List UInt8) (localAddr : Addr) : Bool :=
       && le ((pdu.drop 8).take 6) == localAddr / 2            -- AdvA == own address
       && (localAddr % 2 == 1) == ((h &&& 0x80) != 0)          -- RxAdd == own address type
 
+/-- src: advertising_type_base::is_valid_scan_request (default layout) -/
+def validScanBase (pdu : List UInt8) (localAddr : Addr) : Bool :=
+  if pdu.length ≠ 14 then false
+  else
+    let h := header pdu
+    ((h >>> 8) &&& 0x3f) == 12 && (h &&& 0x0f) == 3
+      && le ((pdu.drop 8).take 6) == localAddr / 2            -- AdvA == own address
+      && (localAddr % 2 == 1) == ((h &&& 0x80) != 0)          -- RxAdd == own address type
+
+/-- src: bindings/nordic/nrf52/include/bluetoe/nrf52.hpp is_valid_scan_request — MODELLED ONLY (the
+    ISR is not built on the host): `response_data_.buffer` present, `resolving_address_invalid()`
+    false, `pdu_gap` 0.  The scanner address handed to the scan filter takes its type from the
+    advertiser's *own* TxAdd bit (`scanner_addres_is_random`), not from the request. -/
+def nrfValidScan (pdu : List UInt8) (localAddr : Addr) (w : WL) : Bool :=
+  let h := header pdu
+  (h >>> 8) == 12 && (h &&& 0x0f) == 3
+    && le ((pdu.drop 8).take 6) == localAddr / 2
+    && (localAddr % 2 == 1) == ((h &&& 0x80) != 0)
+    && BluetoeModel.WhiteList.scanIn w (addrAt pdu 0 (localAddr % 2 == 1))
+
 /-- src: <type>::impl::is_valid_connect_request -/
 def validConnectT (s : St) (pdu : List UInt8) : AdvType → Bool
   | .undirected => validConnectBase pdu s.localAddr
@@ -209,6 +229,7 @@ inductive Out where
   | bool (b : Bool)
   | sched (s : Option (Nat × Nat))         -- schedule_advertisment( channel, …, delay µs, … )
   | recv (acc : Option Addr) (s : Option (Nat × Nat))
+  | scan (valid inFilter : Bool)
 deriving Repr, DecidableEq
 
 /-- the part of handle_start_advertising in front of the scheduling: advertising data filled and
@@ -281,6 +302,7 @@ inductive Op where
   | change (t : Nat) | direct (a : Addr) | localAddr (a : Addr)
   | filter (b : Bool) | wladd (a : Addr) | wlremove (a : Addr)
   | recv (pdu : List UInt8)
+  | scanfilter (b : Bool) | scanreq (pdu : List UInt8)
 deriving Repr, DecidableEq
 
 def advTypeOfNat : Nat → Option AdvType
@@ -318,6 +340,11 @@ def step (s : St) : Op → St × Out
   | .filter b => ({ s with wl := { s.wl with connFilter := b } }, .ok)
   | .wladd a => let (w, r) := BluetoeModel.WhiteList.add s.wl a; ({ s with wl := w }, .bool r)
   | .wlremove a => let (w, r) := BluetoeModel.WhiteList.remove s.wl a; ({ s with wl := w }, .bool r)
+  | .scanfilter b => ({ s with wl := { s.wl with scanFilter := b } }, .ok)
+  | .scanreq pdu =>
+      if pdu.length < 2 then (s, .bad)
+      else (s, .scan (validScanBase pdu s.localAddr)
+                (BluetoeModel.WhiteList.scanIn s.wl (addrAt pdu 0 ((header pdu &&& 0x40) != 0))))
   | .recv pdu =>
       if pdu.length < 2 then (s, .bad)
       else match handleReceive s pdu with
